@@ -30,7 +30,7 @@ Section Exact.
     exact_c c -> In ch chords0 -> enabled_on layer ch = true -> same_keys ch (firstn n all) = true ->
     push_active (get_active_chord ch since coord rf) c = Ok c' -> exact_c c'.
   Proof.
-    intros [Hc Ha] Hin Hen Hs. unfold push_active. destruct (Nat.ltb _ _); [|discriminate]. intros E. injection E as <-.
+    intros [Hc Ha] Hin Hen Hs. unfold push_active. destruct (Nat.ltb _ _); intros E; injection E as <-; [|split; assumption].
     split; [exact Hc|]. cbn [set_cv_active cv_active]. apply Forall_app. split; [exact Ha|].
     constructor; [|constructor]. right. exists ch, since, coord, rf, n. auto.
   Qed.
@@ -133,7 +133,7 @@ Section Exact.
 
   (* the loop never touches the queue *)
   Lemma push_active_queue a c c' : push_active a c = Ok c' -> cv_queue c' = cv_queue c.
-  Proof. unfold push_active. destruct (Nat.ltb _ _); [|discriminate]. intros E. injection E as <-. reflexivity. Qed.
+  Proof. unfold push_active. destruct (Nat.ltb _ _); intros E; injection E as <-; reflexivity. Qed.
 
   Lemma pp_step_queue possible since rf st press st' :
     pp_step possible layer since rf st press = Ok st' -> cv_queue (pp_c st') = cv_queue (pp_c st).
